@@ -348,6 +348,26 @@ pub fn run(rep: &Report) {
         run_cred(&ts[*ti], s, cfg, fi, l);
     });
     rep.scope_done(json!({"scope": format!("S(3,{}) x (TopLevel, AllLevels, every Custom subset) x (decoys off/on, JSON form) x disclosure-list families with {} foreign item(s)", if quick { 2 } else { 3 }, fi), "credentials": items.len()}));
+    // leaf values that look like "nothing" (null, false, 0, "", {}, []) at every position of S(2,2)
+    let nothing = [Value::Null, json!(false), json!(0), json!(""), json!({}), json!([])];
+    let mut nts = vec![];
+    for u in trees(2, 2) {
+        for k in 0..count_leaves(&u) {
+            for v in &nothing {
+                if let Some(t) = substitute_leaf(&u, k, v) {
+                    nts.push(t);
+                }
+            }
+        }
+    }
+    let mut items3 = vec![];
+    for (ti, _) in nts.iter().enumerate() {
+        for s in [Strat::Top, Strat::All] {
+            items3.push((ti, s));
+        }
+    }
+    par_for(rep, items3.len(), |i, l| run_cred(&nts[items3[i].0], &items3[i].1, &Cfg::CHEAP, 1, l));
+    rep.scope_done(json!({"scope": "S(2,2) with null / false / 0 / \"\" / {} / [] at every leaf position x {TopLevel, AllLevels}", "credentials": items3.len()}));
     // chains: children without parents at depth
     let ch = chains(if quick { 4 } else { 5 });
     let mut items2 = vec![];
